@@ -111,6 +111,16 @@ def ghost (j : Json) : Except String Json := do
   let a1 := setGhostAll faces a0
   pure (jQs ((allIdx fshape).map a1))
 
+/-- regroup a list of faces into per-axis data if it is exactly the list of all faces of a grid
+with `nax` axes in the order of `BoundariesList.set_ghost_cells` (axis by axis, upper side first) -/
+def toSpecs (nax : Nat) : Nat → List (Face × Rat × Cond Rat) → Option (List (AxisSpec Rat))
+  | k, [] => if k = nax then some [] else none
+  | k, (fu, dxu, cu) :: (fl, dxl, cl) :: rest =>
+    if fu.axis = k ∧ fl.axis = k ∧ fu.side = .upper ∧ fl.side = .lower ∧ dxu = dxl then
+      (toSpecs nax (k + 1) rest).map (fun r => ⟨dxu, (fl.normal, cl), (fu.normal, cu)⟩ :: r)
+    else none
+  | _, _ => none
+
 /-- as `ghost`, and additionally which entries (flat indices) are the result of a division by
 zero in an expression condition (`div0`) and which are written by a `mixed` condition at a
 singular finite coefficient (`sing`): {"a": [...], "div0": [k..], "sing": [k..]} -/
@@ -122,13 +132,19 @@ def ghost2 (j : Json) : Except String Json := do
   let fshape := List.replicate rank dim ++ shape.map (· + 2)
   let a0 : List Int → Rat := arrFn fshape data
   let (faces, sing) ← parseFaces j shape rank
-  let a1 := setGhostAll faces a0
+  -- a request that lists every face of the grid in setter order is evaluated through
+  -- `setBoundaries` (the definition `Props/C02b` speaks about); "grid" says which one was used
+  let specs := toSpecs shape.length 0 faces
+  let a1 := match specs with
+    | some sp => setBoundaries shape rank sp a0
+    | none => setGhostAll faces a0
   let all := allIdx fshape
   let div0 := (all.zipIdx).filterMap (fun (p : List Int × Nat) =>
     if faces.any (fun fc => fc.1.writes p.1 && divByZero fc.1 fc.2.1 fc.2.2 p.1) then some p.2 else none)
   let sng := (all.zipIdx).filterMap (fun (p : List Int × Nat) =>
     if sing.any (fun fs => fs.1.writes p.1 && fs.2 (fs.1.valueIdx p.1)) then some p.2 else none)
-  pure (Json.mkObj [("a", jQs (all.map a1)), ("div0", toJson div0), ("sing", toJson sng)])
+  pure (Json.mkObj [("a", jQs (all.map a1)), ("div0", toJson div0), ("sing", toJson sng),
+    ("grid", toJson specs.isSome)])
 
 /-- virtual point data of one condition for every element of its value array:
 {"kind", "dx", "N", "upper", "v":[..], "c":[..], "vinf":[..]} ->
